@@ -287,7 +287,8 @@ class Case:
 class Unit:
     def __init__(self, id, target, inputs, cases, requires=None, call=None, allowed_raises=(), canary=None,
                  axioms=None, prop=None, doc='', setup=None, native_call=None, max_paths=4000, timeout_ms=None,
-                 bounded_domain_cap=4000, kf_regions=None, feas_timeout_ms=2000, fork=None, extra_combos=()):
+                 bounded_domain_cap=4000, kf_regions=None, feas_timeout_ms=2000, fork=None, extra_combos=(), cross_key=None):
+        self.cross_key = cross_key
         self.fork = fork
         self.extra_combos = list(extra_combos)
         self.id, self.target, self.inputs, self.cases = id, target, inputs, cases
@@ -850,7 +851,14 @@ def crosscheck_instance(inst, n=6, seed=0):
         k, v = res[0][1]
         if k == 'unsupported':
             continue
-        if not _same_outcome(Outcome(k, v), nat):
+        if unit.cross_key is not None and k == 'ret' and nat.kind == 'ret':
+            try:
+                same = unit.cross_key(v) == unit.cross_key(nat.value)
+            except Exception:
+                same = False
+        else:
+            same = _same_outcome(Outcome(k, v), nat)
+        if not same:
             bad.append(dict(inputs=[_short(a) for a in args], interp=repr(Outcome(k, v)), cpython=repr(nat)))
     return dict(instance=inst.id, checked=done, disagreements=bad)
 
